@@ -16,3 +16,13 @@ pub fn spawn_tasks(_m: usize, _inc: u16, _prog: &Rc<NetProgram>) {}
 pub fn gen_tasks_c04(_rng: &mut crate::prng::Rng) -> Vec<TaskSpec> {
     Vec::new()
 }
+
+pub fn gen_tasks_c09(_rng: &mut crate::prng::Rng) -> Vec<TaskSpec> {
+    Vec::new()
+}
+pub fn gen_tasks_c13(_rng: &mut crate::prng::Rng) -> Vec<TaskSpec> {
+    Vec::new()
+}
+pub fn gen_tasks_c20(_rng: &mut crate::prng::Rng) -> Vec<TaskSpec> {
+    Vec::new()
+}
